@@ -59,6 +59,9 @@ MC_MODELS = {
                  "apalache": ["--cinit=ConstInit", "--init=Init", "--next=Next", "--inv=IndInv", "--length=0"]},
     "len_step": {"module": "LenMachine.tla", "timeout": 1800,
                  "apalache": ["--cinit=ConstInit", "--init=IndInit", "--next=Next", "--inv=IndInv", "--length=1"]},
+    # ... and termination: a lexicographic rank decreases on every step, for inputs of any length (action invariant)
+    "len_progress": {"module": "LenMachine.tla", "timeout": 1800,
+                     "apalache": ["--cinit=ConstInit", "--init=IndInit", "--next=Next", "--inv=Progress", "--length=1"]},
     # the position arithmetic of the encoder with octet values forgotten: TLC with scaled-down limits (both
     # refusals reached) and Apalache: Safe is INDUCTIVE for writers, AVP counts and payloads of any size
     "enclen_tlc": {"module": "../EncLenMachine.tla", "cfg": "MCEncLenMachine.cfg"},
@@ -82,7 +85,7 @@ COMMON_ASSUMPTIONS = [
 
 PROPS = {
     "C01": {
-        "mc": DEC_MODELS + ["len_tlc", "len_base", "len_step"], "gen": ["decode", "avps", "payload", "decode_big", "many_avps"],
+        "mc": DEC_MODELS + ["len_tlc", "len_base", "len_step", "len_progress"], "gen": ["decode", "avps", "payload", "decode_big", "many_avps"],
         "rule": "TLC-explored boundary grammars of the decoder machine (every run exported and replayed) + seeded "
                 "random / mutated / raw inputs through both entry points, the bare AVP list reader and the per-type "
                 "readers, in a dev build (overflow checks, debug assertions) and a release build, under catch_unwind "
